@@ -195,6 +195,13 @@ void run_tree(const Execution &ex) {
         } catch (const tulz::Exception &e) {
             nf = e.type == Path::NotFound;
         }
+        {   // the empty path names nothing (a default-constructed Path, or the parent of a separator-free name)
+            Path empty("");
+            Path dflt;
+            out().raw(std::string("\"e\":\"Empty\",\"exists\":") + (empty.exists() || dflt.exists() ? "true" : "false") + ",\"file\":" +
+                      (empty.isFile() || dflt.isFile() ? "true" : "false") + ",\"dir\":" + (empty.isDirectory() || dflt.isDirectory() ? "true" : "false") +
+                      ",\"abs\":" + (empty.isAbsolute() ? "true" : "false"));
+        }
         out().raw(std::string("\"e\":\"Missing\",\"exists\":") + (missing.exists() ? "true" : "false") + ",\"file\":" + (missing.isFile() ? "true" : "false") +
                   ",\"dir\":" + (missing.isDirectory() ? "true" : "false") + ",\"size_throws\":" + (nf ? "true" : "false"));
     }
